@@ -279,6 +279,10 @@ def build(run):
             ("interior facet: separate restrictions", lambda: u1("+") * v1("-") * dS + u0[0]("+") * v1("+") * dS + jump(u1) * avg(v0[1]) * dS, 2),
             ("interior facet: restricted sum of parts", lambda: (u0[0] + u1)("+") * v1("+") * dS + (u0[1] - u1)("-") * (v0[0] + v1)("+") * dS, 2),
             ("interior facet: jump and avg of sums of parts", lambda: jump(u0[0] + u1) * avg(v0[1] - v1) * dS, 2),
+            # forms in which some parts do not occur at all (the block layout is that of the SPACE, not of the parts that happen to occur)
+            ("only the (0,1) block", lambda: u1 * div(v0) * dx, 2), ("blocks (0,0) and (0,1) only", lambda: (inner(grad(u0), grad(v0)) + u1 * div(v0)) * dx, 2),
+            ("blocks (0,0) and (1,0) only", lambda: (inner(u0, v0) + div(u0) * v1) * dx, 2), ("only the (1,1) block", lambda: f * u1 * v1 * dx, 2),
+            ("rhs with the first part only", lambda: dot(ufl.as_vector([f, 1]), v0) * dx, 1), ("rhs with the last part only", lambda: f * v1 * dx, 1),
             ("interior facet rhs: restricted sum of test parts", lambda: (f * (v0[0] + v1))("+") * dS + avg(f) * jump(v0[1] + v1) * dS, 1),
         ]
         for fname, mkF, arity in forms:
@@ -290,12 +294,44 @@ def build(run):
                     F = mkF()
                     from ufl.algorithms import expand_derivatives
                     Fe = expand_derivatives(F)
-                    blk = extract_blocks(F, bi, bj) if arity == 2 else extract_blocks(F, bi)
+                    try:
+                        blk = extract_blocks(F, bi, bj) if arity == 2 else extract_blocks(F, bi)
+                    except RuntimeError as ex:
+                        if "Cannot extract block" not in str(ex):
+                            raise
+                        blk = None      # the block lies outside the layout derived from the parts that occur: it must then be empty in the form as well
                     if blk is None:
                         blk = 0
                     spec_mk = world(bi, bj)
                     return check_form(world(), blk, lambda w, key: part_sum(in_world(w, spec_mk), form_parts(Fe).get(key, [])), [Fe], tag, tmo)
                 run.add(tag, thunk, kind="values")
+            # the call without indices returns the whole block structure: rectangular, agreeing with the single-block calls, and its entries SUM TO THE FORM
+            # (the layout may be smaller than the space when trailing parts do not occur, but then nothing of the form may be lost)
+            tag_all = f"mixed-function-space/{fname}/all-blocks-sum-to-the-form"
+
+            def all_thunk(mkF=mkF, arity=arity, tag_all=tag_all):
+                F = mkF()
+                from ufl.algorithms import expand_derivatives
+                Fe = expand_derivatives(F)
+                allb = extract_blocks(F)
+                rows = len(allb)
+                if arity == 2 and len({len(r) for r in allb}) > 1:
+                    return violated(f"{tag_all}: extract_blocks(F) is ragged: rows of lengths {[len(r) for r in allb]}", replay={"form": fname}, reproduced=True, backend="structural")
+                n_ = 0
+                total = None
+                empty = lambda x_: x_ is None or (hasattr(x_, "integrals") and not x_.integrals())     # noqa: E731
+                for a_ in range(rows):
+                    for b_ in (range(len(allb[a_])) if arity == 2 else (None,)):
+                        got = allb[a_][b_] if arity == 2 else allb[a_]
+                        one = extract_blocks(F, a_, b_) if arity == 2 else extract_blocks(F, a_)
+                        n_ += 1
+                        if empty(got) != empty(one) or (not empty(got) and not got.equals(one)):
+                            return violated(f"{tag_all}: extract_blocks(F)[{a_}]{'' if b_ is None else f'[{b_}]'} = {str(got)[:120]} but extract_blocks(F, {a_}{'' if b_ is None else f', {b_}'}) = {str(one)[:120]}",
+                                            replay={"form": fname, "block": [a_, b_]}, reproduced=True, backend="exec")
+                        if not empty(got):
+                            total = got if total is None else total + got
+                return check_form(world(), 0 if total is None else total, lambda w, key: part_sum(in_world(w, world()), form_parts(Fe).get(key, [])), [Fe], tag_all, tmo)
+            run.add(tag_all, all_thunk, kind="values")
     mfs_route()
 
     def canary():
